@@ -1,4 +1,13 @@
-"""Translator: the float code of grid/cubic.py -> Gen/CubicGrid.lean.
+"""Translator: the float code of grid/cubic.py -> Gen/CubicGrid.lean, and (round 3, class `FnX` / `Translator.run_interp`)
+the constructors, `get_points_along_axes` and `interpolate` -> Gen/CubicInterp.lean:
+
+    _HyperRectangleGrid.__init__, get_points_along_axes, interpolate (with its closures z_spline / y_splines / x_spline,
+    the recursive calls of the logarithmic variant, the default values of the signature),
+    UniformGrid.__init__, Tensor1DGrids.__init__ / origin, the default values of from_molecule;
+    CubicSpline / RegularGridInterpolator / bell are parameters of the generated definitions (named primitives),
+    error messages are kept as comments (their f-string expressions are text of the generated file).
+
+First file:
 
 AST based, typed.  Translated (statement by statement, expression by expression):
 
@@ -564,9 +573,761 @@ class Fn:
         _fail(s, "unsupported statement")
 
 
+# ---------------------------------------------------------------------------------------------
+# round 3: the constructors, get_points_along_axes and interpolate -> Gen/CubicInterp.lean
+# ---------------------------------------------------------------------------------------------
+Z, TV, MN, NDI, DICT, SYMS, VB, CALLABLE, VNAT = "Z", "TV", "MN", "NDI", "DICT", "SYMS", "VB", "CALLABLE", "VNAT"
+OG, OOG, NDF = "OG", "OOG", "NDF"
+LEAN_TY.update({Z: "Int", TV: "List (List K)", MN: "List (List Nat)", NDI: "NdI", DICT: "List (String × K)",
+                SYMS: "List String", VB: "List Bool", CALLABLE: None, OG: "(List K × List K)", OOG: "Option (List K × List K)",
+                NDF: "NdF K"})
+ARRAYS = (VF, VN, VZ, MF)
+
+
+class FnX(Fn):
+    """Translation of one function body for Gen/CubicInterp.lean: `Fn` plus
+
+    * Python integers: `a - b` of two naturals is an `Int`; tuples of integers, `range(a, b)`, `np.arange(a, b)`,
+      integer array times integer stay integers; slices `A[a:b, d]`, `v[a:b]`, fancy rows `A[idx, d]`;
+    * `if` statements without `return` / `raise` inside are sub-blocks yielding the variables they assign
+      (no duplication of the continuation);
+    * closures (`z_spline`, `y_splines`, `x_spline`): top-level definitions taking the captured variables as
+      leading parameters (every call passes every parameter, so the `nu=nu` defaults are dead — checked);
+    * the recursive `self.interpolate(..., use_log=False, ...)`: open recursion through the parameter
+      `self_interpolate` (every recursive call must pass the literal `use_log=False`, which bounds the depth by one);
+    * `CubicSpline(...)(...)`, `RegularGridInterpolator(...)`, `bell(...).evalf(subs=...)`, `symbols("x:" + str(n))`:
+      the named primitives of Model/CubicInterpNp.lean;
+    * literals by their decimal source text (`1e-10` is `1 / 10^10`).
+    """
+
+    alias = None        # python name -> Lean text where it differs from the name (an Optional argument known not to be None)
+    rec_sig = None      # (names, types, default nodes) of the function when it may call itself through self
+    super_init = None   # (lean name, [arg types]) of `super().__init__`
+    ctx_args = ()       # leading Lean arguments of nested functions
+
+    def toZ(self, c, ty, node):
+        if ty == Z:
+            return c
+        if ty == N:
+            return f"({c} : Int)" if c.isdigit() else f"(({c} : Nat) : Int)"
+        _fail(node, f"value of type {ty} where an integer is needed")
+
+    # -- expressions --------------------------------------------------------------------------
+    def e_Name(self, e):
+        if e.id in self.env:
+            return (self.alias or {}).get(e.id, e.id), self.env[e.id]
+        _fail(e, "unknown name")
+
+    def e_Constant(self, e):
+        v = e.value
+        if isinstance(v, float) and not isinstance(v, bool):
+            txt = ast.get_source_segment(self.owner.src, e)
+            try:
+                from decimal import Decimal
+                fr = Fraction(Decimal(txt))
+            except Exception:
+                _fail(e, "float literal whose source text is not a decimal")
+            if fr < 0 or fr.numerator >= 2 ** 53 or fr.denominator >= 2 ** 53 or float(fr.numerator) / float(fr.denominator) != v:
+                _fail(e, "float literal that is not a quotient of two exactly representable integers")
+            if fr.denominator == 1:
+                return f"(({fr.numerator} : Nat) : K)", F
+            return f"((({fr.numerator} : Nat) : K) / (({fr.denominator} : Nat) : K))", F
+        return super().e_Constant(e)
+
+    def e_Tuple(self, e):
+        items = [self.expr(x) for x in e.elts]
+        if items and all(t in (N, Z) for _, t in items):
+            return "[" + ", ".join(self.toZ(c, t, e) for c, t in items) + "]", VZ
+        if items and all(t == VF for _, t in items):
+            return "[" + ", ".join(c for c, _ in items) + "]", TV
+        _fail(e, "unsupported tuple")
+
+    def e_List(self, e):
+        if not e.elts:
+            return "([] : List K)", VF
+        items = [self.expr(x) for x in e.elts]
+        if all(t == B for _, t in items):
+            return "[" + ", ".join(c for c, _ in items) + "]", VB
+        if all(t == S for _, t in items):
+            return "[" + ", ".join(c for c, _ in items) + "]", "VS"
+        if all(t == N for _, t in items):
+            return "[" + ", ".join(c for c, _ in items) + "]", VNAT
+        return super().e_List(e)
+
+    def e_Attribute(self, e):
+        if isinstance(e.value, ast.Name) and e.value.id == "self" and e.attr in self.selfattrs:
+            return self.selfattrs[e.attr]
+        if e.attr == "T":
+            c, ty = self.expr(e.value)
+            if ty == MN:
+                return f"(nTranspose {c})", MN
+            if ty == MF:
+                return f"(npTranspose {c})", MF
+            _fail(e, f".T of {ty}")
+        if e.attr in ("points", "weights", "size") and isinstance(e.value, ast.Name) and self.env.get(e.value.id) == OG:
+            c, _ = self.expr(e.value)     # a OneDGrid: the pair (points, weights); `size` is `weights.size` (Grid.size)
+            return {"points": (f"{c}.1", VF), "weights": (f"{c}.2", VF), "size": (f"{c}.2.length", N)}[e.attr]
+        return super().e_Attribute(e)
+
+    def e_BinOp(self, e):
+        if isinstance(e.op, (ast.Add, ast.Sub, ast.Mult)):
+            a, ta = self.expr(e.left)
+            b, tb = self.expr(e.right)
+            op = ARITH[type(e.op)]
+            if ta == S and tb == S and op == "+":
+                return f"({a} ++ {b})", S
+            if ta == N and tb == N and op == "-":
+                return f"({self.toZ(a, ta, e)} - {self.toZ(b, tb, e)})", Z
+            if (ta == Z and tb in (N, Z)) or (ta == N and tb == Z):
+                return f"({self.toZ(a, ta, e)} {op} {self.toZ(b, tb, e)})", Z
+            if ta == VZ and tb in (N, Z):
+                return f"({a}.map fun (s' : Int) => s' {op} {self.toZ(b, tb, e)})", VZ
+            return self.binop_typed(e, a, ta, b, tb)
+        return super().e_BinOp(e)
+
+    def binop_typed(self, e, a, ta, b, tb):
+        """`Fn.e_BinOp` on already translated operands (operands must not be translated twice: temporaries)."""
+        fake = ast.BinOp(left=ast.Name(id="__a", ctx=ast.Load()), op=e.op, right=ast.Name(id="__b", ctx=ast.Load()))
+        ast.copy_location(fake, e)
+        ast.fix_missing_locations(fake)
+        self.env["__a"], self.env["__b"] = ta, tb
+        try:
+            c, t = Fn.e_BinOp(self, fake)
+        finally:
+            del self.env["__a"], self.env["__b"]
+        # whole-word replacement of the two placeholders
+        import re as _re
+        c = _re.sub(r"\b__a\b", lambda m: a, c)
+        c = _re.sub(r"\b__b\b", lambda m: b, c)
+        return c, t
+
+    @staticmethod
+    def none_test(e):
+        """`NAME is not None` -> NAME"""
+        if isinstance(e, ast.Compare) and len(e.ops) == 1 and isinstance(e.ops[0], ast.IsNot) and isinstance(e.left, ast.Name) \
+                and isinstance(e.comparators[0], ast.Constant) and e.comparators[0].value is None:
+            return e.left.id
+        return None
+
+    def e_Compare(self, e):
+        nm = self.none_test(e)
+        if nm is not None:
+            if self.env.get(nm) == OOG:
+                return f"{nm}.isSome", B
+            _fail(e, "`is not None` on a value that is not optional")
+        if len(e.ops) == 1:
+            op, l, r = e.ops[0], e.left, e.comparators[0]
+            if isinstance(op, (ast.In, ast.NotIn)) and isinstance(r, (ast.List, ast.Tuple)):
+                a, ta = self.expr(l)
+                items = [self.expr(x) for x in r.elts]
+                if items and all(t == ta for _, t in items) and ta in (S, N):
+                    c = f"([{', '.join(c for c, _ in items)}].contains {a})"
+                    return (c if isinstance(op, ast.In) else f"(!{c})"), B
+                _fail(e, "unsupported membership test")
+            if isinstance(op, (ast.Eq, ast.NotEq)) and isinstance(l, ast.Attribute) and l.attr == "shape" and isinstance(r, ast.Tuple) \
+                    and len(r.elts) == 2:
+                a, ta = self.expr(l.value)
+                (x, tx), (y, ty) = [self.expr(v) for v in r.elts]
+                if ta == MF and tx == N and ty == N:
+                    c = f"(mShapeIs {a} {x} {y})"
+                    return (c if isinstance(op, ast.Eq) else f"(!{c})"), B
+                _fail(e, "unsupported comparison of .shape")
+            if type(op) in CMP:
+                a, ta = self.expr(l)
+                b, tb = self.expr(r)
+                o = CMP[type(op)]
+                if ta == VZ and tb == VZ and o in ("==", "!="):
+                    return f"({a} {o} {b})", B
+                if {ta, tb} <= {N, Z} and Z in (ta, tb):
+                    x, y = self.toZ(a, ta, e), self.toZ(b, tb, e)
+                    return (f"({x} {o} {y})" if o in ("==", "!=") else f"(decide ({x} {o} {y}))"), B
+                if ta == F and tb == F and o in ("<", ">"):
+                    return f"(decide ({a} {o} {b}))", B
+                return self.compare_typed(e, o, a, ta, b, tb)
+        _fail(e, "unsupported comparison")
+
+    def compare_typed(self, e, op, a, ta, b, tb):
+        if ta == tb and ta in (N, S) and op in ("==", "!="):
+            return f"({a} {op} {b})", B
+        if ta == tb == N:
+            return f"(decide ({a} {op} {b}))", B
+        _fail(e, f"comparison of {ta} with {tb}")
+
+    def e_Subscript(self, e):
+        sl = e.slice
+        if isinstance(sl, ast.Tuple) and len(sl.elts) == 2:
+            base, tb = self.expr(e.value)
+            if tb != MF:
+                _fail(e, f"two indices into {tb}")
+            r, c = sl.elts
+            if isinstance(r, ast.Slice):
+                if r.step is not None:
+                    _fail(e, "slice with a step")
+                lo = "(0 : Int)" if r.lower is None else self.toZ(*self.expr(r.lower), e)
+                hi = None if r.upper is None else self.toZ(*self.expr(r.upper), e)
+                cc, tc = self.expr(c)
+                if tc != N:
+                    _fail(e, "column index is not a natural number")
+                if r.lower is None and r.upper is None:
+                    return self.hoist(f"interpCol {base} {cc}", VF)
+                if hi is None:
+                    _fail(e, "slice without an upper bound")
+                return self.hoist(f"npSliceCol {base} {lo} {hi} {cc}", VF)
+            ri, tr = self.expr(r)
+            cc, tc = self.expr(c)
+            if tc != N:
+                _fail(e, "column index is not a natural number")
+            if tr == VZ:
+                return self.hoist(f"npTakeCol {base} {ri} {cc}", VF)
+            _fail(e, f"row index of type {tr}")
+        if isinstance(sl, ast.Slice):
+            base, tb = self.expr(e.value)
+            if tb != VF or sl.step is not None or sl.lower is None or sl.upper is None:
+                _fail(e, "unsupported slice")
+            lo = self.toZ(*self.expr(sl.lower), e)
+            hi = self.toZ(*self.expr(sl.upper), e)
+            return f"(pySlice {base} {lo} {hi})", VF
+        np_shape = isinstance(e.value, ast.Attribute) and e.value.attr == "shape" and not (
+            isinstance(e.value.value, ast.Name) and e.value.value.id == "self")
+        if np_shape and isinstance(sl, ast.Constant) and sl.value == 1:
+            c, ty = self.expr(e.value.value)
+            if ty == MF:
+                return f"(mCols {c})", N
+        if not np_shape:
+            c, ty = self.expr(e.value)
+            if ty == VZ:
+                i, ti = self.expr(sl)
+                if ti != N:
+                    _fail(e, "index is not a natural number")
+                return self.hoist(f"optGet ({c}[{i}]?)", Z)
+            return self.subscript_typed(e, c, ty)
+        return super().e_Subscript(e)
+
+    def subscript_typed(self, e, c, ty):
+        i, ti = self.expr(e.slice)
+        if ti != N:
+            _fail(e, "index is not a natural number")
+        if ty == VN:
+            return self.hoist(f"nGet {c} {i}", N)
+        if ty == VF:
+            return self.hoist(f"kGet {c} {i}", F)
+        if ty == MF:
+            return self.hoist(f"mRow {c} {i}", VF)
+        _fail(e, f"indexing into {ty}")
+
+    def range_of(self, it, node):
+        """`range(n)` / `range(a, b)` -> (lean list, element type)"""
+        if not (isinstance(it, ast.Call) and ast.unparse(it.func) == "range" and 1 <= len(it.args) <= 2 and not it.keywords):
+            _fail(node, "iteration is not over range(...)")
+        bounds = [self.expr(a) for a in it.args]
+        if all(t == N for _, t in bounds):
+            if len(bounds) == 1:
+                return f"(List.range {bounds[0][0]})", N
+            return f"(npArange {bounds[0][0]} {bounds[1][0]})", N
+        if all(t in (N, Z) for _, t in bounds) and len(bounds) == 2:
+            return f"(pyRange {self.toZ(*bounds[0], node)} {self.toZ(*bounds[1], node)} (1 : Int))", Z
+        _fail(node, "range of non-integers")
+
+    def comp(self, e, elt_fn):
+        if len(e.generators) != 1 or e.generators[0].ifs or e.generators[0].is_async or not isinstance(e.generators[0].target, ast.Name):
+            _fail(e, "unsupported comprehension")
+        g = e.generators[0]
+        rng, tv = self.range_of(g.iter, e)
+        v = g.target.id
+        outer_pre, self.pre = self.pre, []
+        saved = self.env.get(v)
+        self.env[v] = tv
+        c, ty = elt_fn()
+        inner = self.pre
+        self.pre = outer_pre
+        if saved is None:
+            del self.env[v]
+        else:
+            self.env[v] = saved
+        return rng, v, inner, c, ty
+
+    def e_ListComp(self, e):
+        rng, v, inner, c, ty = self.comp(e, lambda: self.expr(e.elt))
+        out = {F: VF, N: VF, Z: VZ, VF: MF}.get(ty)
+        if out is None:
+            _fail(e, f"comprehension of {ty}")
+        if ty == N:
+            c = self.toF(c, ty, e)
+        body = " ".join(f"{ln};" for ln in inner) + f" pure {c}"
+        return self.hoist(f"{rng}.mapM fun {v} => do {body}", out)
+
+    def e_DictComp(self, e):
+        def elt():
+            k, tk = self.expr(e.key)
+            x, tx = self.expr(e.value)
+            if tk != S or tx != F:
+                _fail(e, "dictionary that does not map strings to floats")
+            return f"({k}, {x})", "PAIR"
+        rng, v, inner, c, ty = self.comp(e, elt)
+        body = " ".join(f"{ln};" for ln in inner) + f" pure {c}"
+        return self.hoist(f"{rng}.mapM fun {v} => do {body}", DICT)
+
+    def args_by_signature(self, e, names, defaults):
+        """positional + keyword arguments of a call in the order of `names` (defaults for the missing ones)"""
+        if len(e.args) > len(names) or any(k.arg is None or k.arg not in names for k in e.keywords):
+            _fail(e, "call does not match the signature")
+        nodes = dict(zip(names, e.args))
+        for k in e.keywords:
+            if k.arg in nodes:
+                _fail(e, "argument given twice")
+            nodes[k.arg] = k.value
+        out = []
+        for n in names:
+            if n in nodes:
+                out.append(nodes[n])
+            elif n in defaults:
+                out.append(defaults[n])
+            else:
+                _fail(e, f"argument {n} missing")
+        return out
+
+    def e_Call(self, e):
+        kw = {k.arg: k.value for k in e.keywords}
+        args = e.args
+        # CubicSpline(nodes, values)(x, nu)
+        if isinstance(e.func, ast.Call) and ast.unparse(e.func.func) == "CubicSpline":
+            inner = e.func
+            if inner.keywords or kw or len(inner.args) != 2 or len(args) != 2:
+                _fail(e, "unsupported use of CubicSpline")
+            (nd, tn), (vl, tv) = [self.expr(a) for a in inner.args]
+            (q, tq), (nu, tnu) = [self.expr(a) for a in args]
+            if tn == VF and tq == VF and tnu == N and tv == VF:
+                return f"(splineCallV CubicSpline {nd} {vl} {q} {nu})", VF
+            if tn == VF and tq == VF and tnu == N and tv == MF:
+                return f"(splineCallM CubicSpline {nd} {vl} {q} {nu})", MF
+            _fail(e, f"CubicSpline on {tn}, {tv} at {tq}, {tnu}")
+        # bell(n, k, symbols).evalf(subs=values)
+        if isinstance(e.func, ast.Attribute) and e.func.attr == "evalf" and isinstance(e.func.value, ast.Call) \
+                and ast.unparse(e.func.value.func) == "bell":
+            b = e.func.value
+            if args or list(kw) != ["subs"] or b.keywords or len(b.args) != 3:
+                _fail(e, "unsupported use of bell(...).evalf")
+            (n, tn), (k, tk), (sy, ts) = [self.expr(a) for a in b.args]
+            d, td = self.expr(kw["subs"])
+            if (tn, tk, ts, td) != (N, N, SYMS, DICT):
+                _fail(e, f"bell on {tn}, {tk}, {ts} with {td}")
+            return self.hoist(f"bellEvalf bell {n} {k} {sy} {d}", F)
+        # a.reshape(...) / a.dot(b)
+        if isinstance(e.func, ast.Attribute) and e.func.attr in ("reshape", "dot") and not (isinstance(e.func.value, ast.Name) and e.func.value.id in ("np", "self")):
+            a, ta = self.expr(e.func.value)
+            if e.func.attr == "reshape":
+                if ta == VF and len(args) == 1 and not kw:
+                    s, ts = self.expr(args[0])
+                    if ts == VN:
+                        return self.hoist(f"Nd.reshapeTo {a} {s}", ND)
+                if ta == NDI and len(args) == 2 and set(kw) <= {"order"}:
+                    r, tr = self.expr(args[0])
+                    m1 = args[1]
+                    order = kw.get("order")
+                    if tr == N and isinstance(m1, ast.UnaryOp) and isinstance(m1.op, ast.USub) and isinstance(m1.operand, ast.Constant) \
+                            and m1.operand.value == 1 and (order is None or (isinstance(order, ast.Constant) and order.value in ("C", "F"))):
+                        fortran = "true" if order is not None and order.value == "F" else "false"
+                        return self.hoist(f"NdI.reshapeRows {a} {r} {fortran}", MN)
+                if ta == NDF and len(args) == 2 and not kw:
+                    r, tr = self.expr(args[0])
+                    m1 = args[1]
+                    if tr == N and isinstance(m1, ast.UnaryOp) and isinstance(m1.op, ast.USub) and isinstance(m1.operand, ast.Constant) \
+                            and m1.operand.value == 1:
+                        return self.hoist(f"NdF.reshapeRowsC {a} {r}", MF)
+                _fail(e, f"unsupported reshape of {ta}")
+            if len(args) == 1 and not kw:
+                b, tb = self.expr(args[0])
+                if ta == MN and tb == MF:
+                    return f"(npMatMul ({a}.map fun r' => r'.map fun (s' : Nat) => (s' : K)) {b})", MF
+            _fail(e, f"unsupported .dot on {ta}")
+        fn = ast.unparse(e.func)
+        if fn == "self.interpolate" and self.rec_sig is not None:
+            names, tys, defaults = self.rec_sig
+            nodes = self.args_by_signature(e, names, defaults)
+            ul = nodes[names.index("use_log")]
+            if not (isinstance(ul, ast.Constant) and ul.value is False):
+                _fail(e, "recursive call of interpolate without the literal use_log=False (unbounded depth)")
+            got = [self.expr(n) for n in nodes]
+            for (c, t), want, nm in zip(got, tys, names):
+                if t != want:
+                    _fail(e, f"self.interpolate: argument {nm} of type {t}, expected {want}")
+            return self.hoist("self_interpolate " + " ".join(c for c, _ in got), VF)
+        if fn in self.funcs:
+            lean, atys, rty, extra = self.funcs[fn]
+            if len(args) != len(atys) or kw:
+                _fail(e, f"{fn}: expected {len(atys)} positional arguments")
+            got = [self.expr(a) for a in args]
+            out = []
+            for (c, t), want in zip(got, atys):
+                if t == VZ and want == VN:      # an integer array known to be positive (guarded above) used as sizes
+                    c, t = f"({c}.map Int.toNat)", VN
+                if t == N and want == Z:
+                    c, t = self.toZ(c, t, e), Z
+                if t != want:
+                    _fail(e, f"{fn}: argument of type {t}, expected {want}")
+                out.append(c if c.startswith("(") or c.startswith("[") or c.isidentifier() or c.isdigit() or c.endswith("'") else f"({c})")
+            return self.hoist(" ".join([lean] + list(extra) + out), rty)
+        if isinstance(e.func, ast.Name) and self.env.get(fn) == CALLABLE:
+            if len(args) != 1 or kw:
+                _fail(e, "unsupported call of a local callable")
+            a, ta = self.expr(args[0])
+            if ta != MF:
+                _fail(e, f"local callable on {ta}")
+            return self.hoist(f"{fn} {a}", VF)
+        if fn == "RegularGridInterpolator":
+            if len(args) != 2 or list(kw) != ["method"]:
+                _fail(e, "unsupported use of RegularGridInterpolator")
+            (nd, tn), (vl, tv), (m, tm) = self.expr(args[0]), self.expr(args[1]), self.expr(kw["method"])
+            if (tn, tv, tm) != (TV, ND, S):
+                _fail(e, f"RegularGridInterpolator on {tn}, {tv}, {tm}")
+            return self.hoist(f"rgiMake RegularGridInterpolator {nd} {vl} {m}", CALLABLE)
+        if fn == "isinstance":
+            if len(args) != 2 or kw:
+                _fail(e, "unsupported isinstance")
+            c, t = self.expr(args[0])
+            what = ast.unparse(args[1])
+            if what == "np.ndarray" and t in ARRAYS:
+                return "true", B
+            if what == "OneDGrid" and t == OG:
+                return "true", B
+            if what == "(OneDGrid, type(None))" and t in (OG, OOG):
+                return "true", B
+            _fail(e, f"isinstance of {t} with {what}")
+        if fn == "str" and len(args) == 1 and not kw:
+            c, t = self.expr(args[0])
+            if t == N:
+                return f"(toString {c})", S
+            _fail(e, f"str of {t}")
+        if fn == "float" and len(args) == 1 and not kw:
+            c, t = self.expr(args[0])
+            if t == F:
+                return c, F
+            _fail(e, f"float of {t}")
+        if fn == "sum" and len(args) == 1 and not kw:
+            c, t = self.expr(args[0])
+            if t == VF:
+                return f"(sumK {c})", F
+            if t == VB:
+                return f"(countTrue {c})", N
+            _fail(e, f"sum of {t}")
+        if fn == "symbols":
+            a = args[0] if len(args) == 1 and not kw else None
+            if isinstance(a, ast.BinOp) and isinstance(a.op, ast.Add) and isinstance(a.left, ast.Constant) and isinstance(a.left.value, str) \
+                    and a.left.value.endswith(":") and ":" not in a.left.value[:-1] and a.left.value[:-1].isidentifier():
+                c, t = self.expr(a.right)
+                if t == S and isinstance(a.right, ast.Call) and ast.unparse(a.right.func) == "str":
+                    n, tn = self.expr(a.right.args[0])
+                    return f'(sympySymbolsRange "{a.left.value[:-1]}" {n})', SYMS
+            _fail(e, "symbols(...) is not the range form \"<stem>:\" + str(n)")
+        if fn == "np.log":
+            if len(args) != 1 or kw:
+                _fail(e, "unsupported np.log")
+            c, t = self.expr(args[0])
+            if t in (F, N):
+                return f"(Elem.log {self.toF(c, t, e)})", F
+            if t == VF:
+                return f"({c}.map fun x' => Elem.log x')", VF
+            _fail(e, f"np.log of {t}")
+        if fn == "np.any":
+            a = args[0] if len(args) == 1 and not kw else None
+            if isinstance(a, ast.Compare) and len(a.ops) == 1 and isinstance(a.ops[0], ast.LtE):
+                l, tl = self.expr(a.left)
+                r, tr = self.expr(a.comparators[0])
+                if tl == VZ and tr == N:
+                    return f"({l}.any fun (s' : Int) => decide (s' ≤ {self.toZ(r, tr, e)}))", B
+                if tl == VZ and tr == F:      # int <= float: as floats; `a <= b` is `not (b < a)`
+                    return f"({l}.any fun (s' : Int) => !(decide ({r} < (intToK s' : K))))", B
+            _fail(e, "unsupported np.any(...)")
+        if fn == "np.prod" and len(args) == 1 and not kw:
+            c, t = self.expr(args[0])
+            if t == VZ:
+                return f"(prodZ {c})", Z
+            return self.call_typed(e, fn, [(c, t)])
+        if fn == "np.arange" and len(args) == 1 and not kw:
+            c, t = self.expr(args[0])
+            if t in (N, Z):
+                return (f"(List.range {c})" if t == N else f"(List.range ({c}).toNat)"), VNAT
+            _fail(e, f"np.arange of {t}")
+        if fn == "np.arange" and len(args) == 2 and not kw:
+            (a, ta), (b, tb) = [self.expr(x) for x in args]
+            if {ta, tb} <= {N, Z} and Z in (ta, tb):
+                return f"(npArangeZ {self.toZ(a, ta, e)} {self.toZ(b, tb, e)})", VZ
+            return self.call_typed(e, fn, [(a, ta), (b, tb)])
+        if fn == "np.array" and len(args) == 1 and not kw and isinstance(args[0], ast.Call) and ast.unparse(args[0].func) == "np.meshgrid":
+            m = args[0]
+            if m.keywords or not m.args:
+                _fail(e, "np.meshgrid with keywords")
+            vs = [self.expr(a) for a in m.args]
+            if any(t != VNAT for _, t in vs):
+                _fail(e, "np.meshgrid of non-integer ranges")
+            return f"(npMeshgridXY [{', '.join(c for c, _ in vs)}])", NDI
+        if fn == "np.vstack" and len(args) == 1 and not kw and isinstance(args[0], ast.Call) and ast.unparse(args[0].func) == "np.meshgrid":
+            m = args[0]
+            if [k.arg for k in m.keywords] != ["indexing"] or not (isinstance(m.keywords[0].value, ast.Constant) and m.keywords[0].value.value == "ij") \
+                    or not m.args:
+                _fail(e, "np.meshgrid without indexing=\"ij\"")
+            vs = [self.expr(a) for a in m.args]
+            if any(t != VF for _, t in vs):
+                _fail(e, "np.meshgrid of non-float arrays")
+            return f"(npVstackMeshgridIJ [{', '.join(c for c, _ in vs)}])", NDF
+        if fn == "np.kron" and len(args) == 2 and not kw:
+            (a, ta), (b, tb) = [self.expr(x) for x in args]
+            if ta == VF and tb == VF:
+                return f"(kron {a} {b})", VF
+            _fail(e, f"np.kron of {ta}, {tb}")
+        if fn == "np.swapaxes" and len(args) == 3 and not kw:
+            (a, ta), (i, ti), (j, tj) = [self.expr(x) for x in args]
+            if (ta, ti, tj) == (NDI, N, N):
+                return f"(NdI.swapaxes {a} {i} {j})", NDI
+            _fail(e, f"np.swapaxes of {ta}")
+        if fn == "np.zeros" and len(args) == 1 and not kw and isinstance(args[0], ast.Tuple) and len(args[0].elts) == 2:
+            (r, tr), (c, tc) = [self.expr(x) for x in args[0].elts]
+            if tr in (N, Z) and tc == N:
+                rows = r if tr == N else f"({r}).toNat"
+                return f"(List.replicate {rows} (List.replicate {c} ((0 : Nat) : K)))", MF
+            _fail(e, "unsupported np.zeros(...)")
+        if fn == "np.diag" and len(args) == 1 and not kw:
+            c, t = self.expr(args[0])
+            if t == MF:
+                return f"(diagonal {c})", VF
+            return self.call_typed(e, fn, [(c, t)])
+        if fn == "np.array" and len(args) == 1 and not kw:
+            c, t = self.expr(args[0])
+            if t in (VF, MF, VN, VZ):
+                return c, t
+            _fail(e, "unsupported np.array(...)")
+        if fn == "len" and len(args) == 1 and not kw:
+            c, t = self.expr(args[0])
+            if t in (VF, VN, VZ, MF):
+                return f"{c}.length", N
+            _fail(e, "len of a non-sequence")
+        return super().e_Call(e)
+
+    def call_typed(self, e, fn, got):
+        """`Fn.e_Call` on already translated arguments"""
+        names = [f"__a{k}" for k in range(len(got))]
+        fake = ast.Call(func=e.func, args=[ast.Name(id=n, ctx=ast.Load()) for n in names], keywords=[])
+        ast.copy_location(fake, e)
+        ast.fix_missing_locations(fake)
+        for n, (_, t) in zip(names, got):
+            self.env[n] = t
+        try:
+            c, t = Fn.e_Call(self, fake)
+        finally:
+            for n in names:
+                del self.env[n]
+        import re as _re
+        for n, (a, _) in zip(names, got):
+            c = _re.sub(r"\b" + n + r"\b", lambda m, a=a: a, c)
+        return c, t
+
+    # -- statements ---------------------------------------------------------------------------
+    @staticmethod
+    def has_exit(stmts):
+        return any(isinstance(n, (ast.Return, ast.Raise)) for s in stmts for n in ast.walk(s))
+
+    @staticmethod
+    def assigned_names(stmts):
+        out = []
+        for s in stmts:
+            for n in ast.walk(s):
+                tg = []
+                if isinstance(n, ast.Assign):
+                    tg = n.targets
+                elif isinstance(n, ast.AugAssign):
+                    tg = [n.target]
+                for t in tg:
+                    for x in (t.elts if isinstance(t, ast.Tuple) else [t]):
+                        if isinstance(x, ast.Name) and x.id not in out:
+                            out.append(x.id)
+        return out
+
+    def raise_line(self, s, p):
+        exc = s.exc
+        name = exc.func.id if isinstance(exc, ast.Call) and isinstance(exc.func, ast.Name) else None
+        tag = {"ValueError": "valueError", "IndexError": "indexError", "TypeError": "typeError",
+               "NotImplementedError": "notImplemented"}.get(name)
+        if tag is None:
+            _fail(s, "unsupported raise")
+        msg = " ".join(ast.unparse(a) for a in exc.args).replace("\n", " ").replace("-/", "- /")
+        return f"{p}throw PyErr.{tag}  -- {name}({msg})"
+
+    def block(self, stmts, ind, end):
+        p = " " * ind
+        out = []
+        for k, s in enumerate(stmts):
+            rest = stmts[k + 1:]
+            if isinstance(s, ast.Expr) and isinstance(s.value, ast.Constant) and isinstance(s.value.value, str):
+                continue
+            if isinstance(s, ast.FunctionDef):
+                self.owner.nested_x(self, s)
+                continue
+            if isinstance(s, ast.If) and not self.has_exit([s]):
+                out += self.if_value(s, ind)
+                continue
+            if isinstance(s, ast.If):
+                pre, (c, t) = self.with_pre(lambda: self.expr(s.test))
+                if t != B:
+                    _fail(s.test, "condition is not boolean")
+                out += [p + ln for ln in pre]
+                out.append(f"{p}if {c} then")
+                env0 = dict(self.env)
+                attrs0 = dict(self.selfattrs)
+                out += self.block(list(s.body) + (rest if self.falls_through(s.body) else []), ind + 2, end)
+                self.env, self.selfattrs = dict(env0), dict(attrs0)
+                out.append(f"{p}else")
+                out += self.block(list(s.orelse) + (rest if self.falls_through(s.orelse) else []), ind + 2, end)
+                self.env, self.selfattrs = env0, attrs0
+                return out
+            if isinstance(s, ast.Return):
+                out += self.ret(s, p)
+                return out
+            if isinstance(s, ast.Raise):
+                out.append(self.raise_line(s, p))
+                return out
+            out += [p + ln for ln in self.simple(s, ind)]
+        out += [p + ln for ln in end]
+        return out
+
+    def if_value(self, s, ind):
+        """an `if` without return / raise: a sub-block whose value is the tuple of the variables it assigns"""
+        p = " " * ind
+        names = self.assigned_names([s])
+        if not names:
+            _fail(s, "`if` without effect")
+        env0 = dict(self.env)
+        tys = {}
+
+        alias0 = dict(self.alias or {})
+
+        def branch(body, ind2, known=None):
+            self.env = dict(env0)
+            self.alias = dict(alias0)
+            if known is not None:            # `if NAME is not None:` — inside, NAME is the object
+                self.env[known] = OG
+                self.alias[known] = f"({known}.getD ([], []))"
+            tail = ["__PURE__"]
+            lines = self.block(body, ind2, tail)
+            self.alias = dict(alias0)
+            if known is not None:
+                self.env[known] = env0[known]
+            for n in names:
+                if n not in self.env:
+                    _fail(s, f"{n} is not defined on every path")
+                if tys.setdefault(n, self.env[n]) != self.env[n]:
+                    _fail(s, f"{n} has different types on the two paths")
+            return lines
+
+        def chain(node, ind2):
+            q = " " * ind2
+            pre, (c, t) = self.with_pre(lambda: self.expr(node.test))
+            if t != B:
+                _fail(node.test, "condition is not boolean")
+            lines = [q + ln for ln in pre] + [f"{q}if {c} then"]
+            lines += branch(node.body, ind2 + 2, self.none_test(node.test))
+            lines.append(f"{q}else")
+            lines += branch(node.orelse, ind2 + 2)
+            return lines
+
+        body = chain(s, ind + 2)
+        tup = names[0] if len(names) == 1 else "(" + ", ".join(names) + ")"
+        body = [ln.replace("__PURE__", f"pure {tup}") for ln in body]
+        t = self.tmp()
+        out = [f"{p}let {t} ← (do"] + body
+        out[-1] += ")"
+        self.env = dict(env0)
+        self.alias = alias0
+        for k, n in enumerate(names):
+            self.env[n] = tys[n]
+            if len(names) == 1:
+                proj = t
+            else:
+                proj = t + ".2" * k + (".1" if k < len(names) - 1 else "")
+            ann = LEAN_TY.get(tys[n])
+            out.append(f"{p}let {n}" + (f" : {ann}" if ann else "") + f" := {proj}")
+        return out
+
+    def ret(self, s, p):
+        pre, (c, t) = self.with_pre(lambda: self.expr(s.value))
+        if t != self.ret_ty:
+            _fail(s, f"returns {t}, expected {self.ret_ty}")
+        return [p + ln for ln in pre] + [f"{p}pure {c}"]
+
+    def simple(self, s, ind):
+        if isinstance(s, ast.Assign) and len(s.targets) == 1:
+            t = s.targets[0]
+            if isinstance(t, ast.Name):
+                pre, (c, ty) = self.with_pre(lambda: self.expr(s.value))
+                self.env[t.id] = ty
+                ann = LEAN_TY.get(ty)
+                return pre + [f"let {t.id}" + (f" : {ann}" if ann else "") + f" := {c}"]
+            if isinstance(t, ast.Attribute) and isinstance(t.value, ast.Name) and t.value.id == "self":
+                pre, (c, ty) = self.with_pre(lambda: self.expr(s.value))
+                lean = "self_" + t.attr
+                self.selfattrs[t.attr] = (lean, ty)
+                if t.attr.startswith("_") and t.attr[1:] in self.owner.PROPERTIES:
+                    self.selfattrs[t.attr[1:]] = (lean, ty)
+                return pre + [f"let {lean} : {LEAN_TY[ty]} := {c}"]
+            if isinstance(t, ast.Tuple) and all(isinstance(x, ast.Name) for x in t.elts) and len(t.elts) == 3:
+                pre, (c, ty) = self.with_pre(lambda: self.expr(s.value))
+                if ty != TV:
+                    _fail(s, f"unpacking of {ty}")
+                u = self.tmp()
+                lines = pre + [f"let {u} ← unpack3 {c}"]
+                for x, proj in zip(t.elts, (".1", ".2.1", ".2.2")):
+                    self.env[x.id] = VF
+                    lines.append(f"let {x.id} : List K := {u}{proj}")
+                return lines
+            _fail(s, "unsupported assignment target")
+        if isinstance(s, ast.Expr) and isinstance(s.value, ast.Call):
+            c = s.value
+            if isinstance(c.func, ast.Attribute) and c.func.attr == "append" and isinstance(c.func.value, ast.Name) and len(c.args) == 1 and not c.keywords:
+                nm = c.func.value.id
+                pre, (x, tx) = self.with_pre(lambda: self.expr(c.args[0]))
+                if self.env.get(nm) != VF or tx != F:
+                    _fail(s, f"append of {tx} to {self.env.get(nm)}")
+                return pre + [f"let {nm} : List K := ({nm} ++ [{x}])"]
+            if ast.unparse(c.func) == "super().__init__" and self.super_init is not None and not c.keywords:
+                lean, atys = self.super_init
+                pre, got = self.with_pre(lambda: [self.expr(a) for a in c.args])
+                if [t for _, t in got] != atys:
+                    _fail(s, f"super().__init__ called with {[t for _, t in got]}")
+                return pre + [f"let self' ← {lean} " + " ".join(x for x, _ in got)]
+            _fail(s, "unsupported expression statement")
+        if isinstance(s, ast.For):
+            if s.orelse or not isinstance(s.target, ast.Name):
+                _fail(s, "unsupported loop")
+            pre, (rng, tv) = self.with_pre(lambda: self.range_of(s.iter, s))
+            state = []
+            for b in ast.walk(ast.Module(body=s.body, type_ignores=[])):
+                nm = None
+                if isinstance(b, (ast.Assign, ast.AugAssign)):
+                    for tg in (b.targets if isinstance(b, ast.Assign) else [b.target]):
+                        if isinstance(tg, ast.Name):
+                            nm = tg.id
+                elif isinstance(b, ast.Call) and isinstance(b.func, ast.Attribute) and b.func.attr == "append" and isinstance(b.func.value, ast.Name):
+                    nm = b.func.value.id
+                if nm is not None and nm in self.env and nm not in state:
+                    state.append(nm)
+            if len(state) != 1:
+                _fail(s, f"loop must update exactly one outer variable, got {state}")
+            st = state[0]
+            v = s.target.id
+            env0 = dict(self.env)
+            self.env[v] = tv
+            body = self.block(s.body, 4, [f"pure {st}"])
+            self.env = env0
+            return pre + [f"let {st} ← {rng}.foldlM (fun {st} {v} => do"] + body + [f"    ) {st}"]
+        if isinstance(s, ast.AugAssign):
+            return super().simple(s, ind)
+        _fail(s, "unsupported statement")
+
+
+
 class Translator:
     def __init__(self):
-        self.tree = ast.parse((SRC / "cubic.py").read_text())
+        self.src = (SRC / "cubic.py").read_text()
+        self.tree = ast.parse(self.src)
         self.defs = []       # Lean text of the definitions, in dependency order
 
     def cls(self, name):
@@ -696,6 +1457,180 @@ class Translator:
         return "\n".join(self.defs)
 
 
+    # ------------------------------------------------------------------------------------------
+    # round 3: Gen/CubicInterp.lean
+    # ------------------------------------------------------------------------------------------
+    PROPERTIES = ("axes", "origin", "shape")
+    CTX = [("CubicSpline", "Interp1 K"), ("shape", "List Nat"), ("junk", "Int"), ("self_points", "List (List K)")]
+    NESTEDX = {
+        "z_spline": ("zSpline", ["z", "x_index", "y_index", "nu_z"], [VF, Z, Z, N], VF),
+        "y_splines": ("ySplines", ["y", "x_index", "z", "nu_y"], [VF, Z, VF, N], VF),
+        "x_spline": ("xSpline", ["x", "y", "z", "nu_x"], [VF, VF, VF, N], VF),
+    }
+
+    def nested_x(self, parent, f):
+        if f.name not in self.NESTEDX:
+            _fail(f, "unknown nested function")
+        lean, params, tys, rty = self.NESTEDX[f.name]
+        self.signature(f, params)
+        for d, a in zip(reversed(f.args.defaults), reversed(f.args.args)):
+            if not (isinstance(d, ast.Name) and d.id == a.arg):
+                _fail(f, "default of a nested function is not the enclosing variable of the same name")
+        caps = getattr(parent, "nested_caps", None)
+        if caps is None:
+            caps = parent.nested_caps = {}
+        captured = []
+        for n in ast.walk(ast.Module(body=f.body, type_ignores=[])):
+            if isinstance(n, ast.Name) and isinstance(n.ctx, ast.Load):
+                names = [n.id] if n.id in parent.env and parent.env[n.id] != CALLABLE else list(caps.get(n.id, []))
+                for nm in names:
+                    if nm in params:
+                        if nm in caps.get(n.id, []):
+                            _fail(f, f"parameter {nm} shadows a variable captured by {n.id}")
+                        continue
+                    if nm not in captured:
+                        captured.append(nm)
+        captured.sort()
+        env = {c: parent.env[c] for c in captured}
+        env.update(zip(params, tys))
+        fn = FnX(self, lean, env, dict(parent.selfattrs), dict(parent.funcs))
+        fn.ret_ty = rty
+        fn.nested_caps = caps
+        body = fn.block(f.body, 2, ["throw PyErr.typeError  -- falls off the end: returns None"])
+        args = " ".join(f"({n} : {t})" for n, t in self.CTX)
+        args += "".join(f" ({c} : {LEAN_TY[parent.env[c]]})" for c in captured)
+        args += "".join(f" ({p} : {LEAN_TY[t]})" for p, t in zip(params, tys))
+        self.emit(f"closure `{f.name}` of `_HyperRectangleGrid.interpolate`; captured variables: "
+                  f"{', '.join(captured) if captured else 'none'} (after the grid `self` and `CubicSpline`).",
+                  f"def {lean} {args} : Py ({LEAN_TY[rty]})", body)
+        parent.funcs[f.name] = (lean, tys, rty, [n for n, _ in self.CTX] + captured)
+        caps[f.name] = captured
+
+    def defaults_of(self, f, names, tys):
+        """default values of the trailing parameters `names` -> (dict name -> node, lean tuple text, lean type text)"""
+        d = f.args.defaults
+        if len(d) != len(names) or [a.arg for a in f.args.args][-len(names):] != names:
+            raise Untranslatable(f"{f.name}: the defaulted parameters are no longer {names}")
+        fx = FnX(self, f.name, {})
+        vals = []
+        for node, t in zip(d, tys):
+            c, got = fx.expr(node)
+            if got == N and t == F:
+                c, got = fx.toF(c, got, node), F
+            if got != t or fx.pre:
+                _fail(node, f"default of type {got}, expected {t}")
+            vals.append(c)
+        return dict(zip(names, d)), "(" + ", ".join(vals) + ")", " × ".join(LEAN_TY[t] for t in tys)
+
+    def run_interp(self):
+        self.defs = []
+        self.check_property("_HyperRectangleGrid", "shape", "return self._shape")
+        self.check_property("_HyperRectangleGrid", "ndim", "return len(self._shape)")
+        self.check_property("UniformGrid", "axes", "return self._axes")
+        self.check_property("UniformGrid", "origin", "return self._origin")
+        selfattrs = {"shape": ("shape", VN), "points": ("self_points", MF), "ndim": ("shape.length", N)}
+        c2i = {"self.coordinates_to_index": ("coordinatesToIndexOf", [VZ], Z, ["shape", "junk"])}
+        grid_args = "(shape : List Nat) (junk : Int) (self_points : List (List K))"
+
+        # _HyperRectangleGrid.__init__(self, points, weights, shape)
+        f = self.method("_HyperRectangleGrid", "__init__")
+        self.signature(f, ["self", "points", "weights", "shape"])
+        fn = FnX(self, "hyperRectangleInit", {"points": MF, "weights": VF, "shape": VZ})
+        fn.ret_ty = None
+        fn.super_init = ("gridInit", [MF, VF])
+        body = fn.block(f.body, 2, ["pure (self'.1, self'.2, self__shape)"])
+        self.emit("`_HyperRectangleGrid.__init__(points, weights, shape)`: the stored `(points, weights, shape)`; "
+                  "`super().__init__` is `Grid.__init__` (`gridInit`).",
+                  "def hyperRectangleInit [LT K] [DecidableLT K] (points : List (List K)) (weights : List K) (shape : List Int) : "
+                  "Py (List (List K) × List K × List Int)", body)
+
+        # get_points_along_axes(self)
+        f = self.method("_HyperRectangleGrid", "get_points_along_axes")
+        self.signature(f, ["self"])
+        fn = FnX(self, "getPointsAlongAxes", {}, dict(selfattrs), dict(c2i))
+        fn.ret_ty = TV
+        body = fn.block(f.body, 2, ["throw PyErr.typeError"])
+        self.emit("`_HyperRectangleGrid.get_points_along_axes()`: the tuple of node arrays; `junk`: content of the uninitialised "
+                  "stride array of `coordinates_to_index`.",
+                  f"def getPointsAlongAxes {grid_args} : Py (List (List K))", body)
+
+        # interpolate(self, points, values, use_log=False, nu_x=0, nu_y=0, nu_z=0, method="cubic")
+        f = self.method("_HyperRectangleGrid", "interpolate")
+        names = ["points", "values", "use_log", "nu_x", "nu_y", "nu_z", "method"]
+        tys = [MF, VF, B, N, N, N, S]
+        self.signature(f, ["self"] + names)
+        defaults, dval, dty = self.defaults_of(f, names[2:], tys[2:])
+        self.defs.append("/-- default values of `use_log, nu_x, nu_y, nu_z, method` in the signature of `interpolate`. -/\n"
+                         f"def interpolateDefaults : {dty} := {dval}\n")
+        funcs = dict(c2i)
+        funcs["self.get_points_along_axes"] = ("getPointsAlongAxes", [], TV, ["shape", "junk", "self_points"])
+        fn = FnX(self, "interpolateStep", dict(zip(names, tys)), dict(selfattrs), funcs)
+        fn.ret_ty = VF
+        fn.rec_sig = (names, tys, defaults)
+        fn.nested_caps = {}
+        body = fn.block(f.body, 2, ["throw PyErr.typeError"])
+        rec_ty = " → ".join(LEAN_TY[t] for t in tys) + " → Py (List K)"
+        prim = ("(CubicSpline : Interp1 K) (RegularGridInterpolator : String → InterpGrid K) (bell : Nat → Nat → List K → K) "
+                + grid_args)
+        sig = " ".join(f"({n} : {LEAN_TY[t]})" for n, t in zip(names, tys))
+        self.emit("one level of `_HyperRectangleGrid.interpolate(points, values, use_log, nu_x, nu_y, nu_z, method)`: the value at every "
+                  "query point. `self_interpolate` stands for the method itself in the recursive calls (all of which pass `use_log=False`); "
+                  "`CubicSpline`, `RegularGridInterpolator`, `bell` are SciPy's / SymPy's callables.",
+                  f"def interpolateStep [LT K] [DecidableLT K] (self_interpolate : {rec_ty}) {prim} {sig} : Py (List K)", body)
+        prim_names = "CubicSpline RegularGridInterpolator bell shape junk self_points"
+        self.defs.append(
+            "/-- `_HyperRectangleGrid.interpolate`: a recursive call passes `use_log=False` and a call with `use_log=False` does not recurse, "
+            "so two levels are the whole recursion. -/\n"
+            f"def interpolate [LT K] [DecidableLT K] {prim} {sig} : Py (List K) :=\n"
+            f"  interpolateStep (interpolateStep (fun _ _ _ _ _ _ _ => throw PyErr.notImplemented) {prim_names}) {prim_names}\n"
+            f"    {' '.join(names)}\n")
+
+        # UniformGrid.__init__(self, origin, axes, shape, weight="Trapezoid")
+        f = self.method("UniformGrid", "__init__")
+        self.signature(f, ["self", "origin", "axes", "shape", "weight"])
+        if [ast.unparse(d) for d in f.args.defaults] != ["'Trapezoid'"]:
+            raise Untranslatable("UniformGrid.__init__: default of `weight` changed")
+        fn = FnX(self, "uniformGridInit", {"origin": VF, "axes": MF, "shape": VZ, "weight": S}, {},
+                 {"self._choose_weight_scheme": ("chooseWeightScheme", [S, VN], VF, ["self__axes"])})
+        fn.ret_ty = None
+        fn.super_init = ("hyperRectangleInit", [MF, VF, VZ])
+        body = fn.block(f.body, 2, ["pure self'"])
+        self.emit("`UniformGrid.__init__(origin, axes, shape, weight)` on array arguments: the `(points, weights, shape)` handed to and stored by "
+                  "`_HyperRectangleGrid.__init__`.",
+                  "def uniformGridInit [LT K] [DecidableLT K] (origin : List K) (axes : List (List K)) (shape : List Int) (weight : String) : "
+                  "Py (List (List K) × List K × List Int)", body)
+
+        # Tensor1DGrids.__init__(self, oned_x, oned_y, oned_z=None)
+        f = self.method("Tensor1DGrids", "__init__")
+        self.signature(f, ["self", "oned_x", "oned_y", "oned_z"])
+        if [ast.unparse(d) for d in f.args.defaults] != ["None"]:
+            raise Untranslatable("Tensor1DGrids.__init__: default of `oned_z` changed")
+        fn = FnX(self, "tensor1DInit", {"oned_x": OG, "oned_y": OG, "oned_z": OOG})
+        fn.ret_ty = None
+        fn.super_init = ("hyperRectangleInit", [MF, VF, VZ])
+        body = fn.block(f.body, 2, ["pure self'"])
+        self.emit("`Tensor1DGrids.__init__(oned_x, oned_y, oned_z=None)`; a `OneDGrid` is the pair `(points, weights)` (its `size` is the number "
+                  "of weights): the `(points, weights, shape)` handed to and stored by `_HyperRectangleGrid.__init__`.",
+                  "def tensor1DInit [LT K] [DecidableLT K] (oned_x oned_y : List K × List K) (oned_z : Option (List K × List K)) : "
+                  "Py (List (List K) × List K × List Int)", body)
+
+        # Tensor1DGrids.origin
+        f = self.method("Tensor1DGrids", "origin")
+        if [ast.unparse(d) for d in f.decorator_list] != ["property"]:
+            raise Untranslatable("Tensor1DGrids.origin is no longer a property")
+        fn = FnX(self, "tensorOrigin", {}, {"points": ("self_points", MF)})
+        fn.ret_ty = VF
+        body = fn.block(f.body, 2, ["throw PyErr.typeError"])
+        self.emit("`Tensor1DGrids.origin`.", "def tensorOrigin (self_points : List (List K)) : Py (List K)", body)
+
+        # defaults of from_molecule
+        f = self.method("UniformGrid", "from_molecule")
+        _, dval, dty = self.defaults_of(f, ["spacing", "extension", "rotate", "weight"], [F, F, B, S])
+        self.defs.append("/-- default values of `spacing, extension, rotate, weight` in the signature of `UniformGrid.from_molecule`. -/\n"
+                         f"def fromMoleculeDefaults : {dty} := {dval}\n")
+        return "\n".join(self.defs)
+
+
 PRELUDE = """import GridVerif.Model.CubicNp
 
 namespace GridVerif.Gen.CubicGrid
@@ -717,12 +1652,36 @@ def translate():
     return Translator().run()
 
 
+PRELUDE_X = """import GridVerif.Model.CubicInterpNp
+import GridVerif.Gen.CubicGrid
+
+namespace GridVerif.Gen.CubicInterp
+open GridVerif GridVerif.Cubic GridVerif.Gen.CubicGrid
+
+set_option linter.unusedVariables false
+
+section
+variable {K : Type} [Add K] [Sub K] [Mul K] [Div K] [Neg K] [NatCast K] [Elem K]
+
+"""
+
+
+def translate_interp():
+    return Translator().run_interp()
+
+
 def generate():
     text = HEADER.format(name="cubic_grid", source="src/grid/cubic.py (UniformGrid._calculate_volume, "
                          "_calculate_alternative_volume, _choose_weight_scheme, closest_point, from_molecule)")
     text += PRELUDE + translate() + "\nend\n\nend GridVerif.Gen.CubicGrid\n"
-    return write_if_changed("CubicGrid.lean", text)
+    c1, d1 = write_if_changed("CubicGrid.lean", text)
+    text = HEADER.format(name="cubic_grid", source="src/grid/cubic.py (_HyperRectangleGrid.__init__, get_points_along_axes, "
+                         "interpolate with z_spline / y_splines / x_spline, UniformGrid.__init__, Tensor1DGrids.__init__ / origin, defaults of from_molecule)")
+    text += PRELUDE_X + translate_interp() + "\nend\n\nend GridVerif.Gen.CubicInterp\n"
+    c2, d2 = write_if_changed("CubicInterp.lean", text)
+    return (c1 or c2), (d1 + d2)[:6000]
 
 
 if __name__ == "__main__":
-    print(translate())
+    import sys
+    print(translate_interp() if "interp" in sys.argv[1:] else translate())
